@@ -834,4 +834,3 @@ package bbolt
 //@   ensures [keyvalue] v != nil && len(keys) >= 1 && err == nil ==> callstotal("(*Bucket).Put") == old(callstotal("(*Bucket).Put")) + 1 && lastarg("(*Bucket).Put", 1) == old(bytesval(k)) && lastarg("(*Bucket).Put", 2) == old(bytesval(v)) && callstotal("(*Bucket).CreateBucket") == old(callstotal("(*Bucket).CreateBucket"))
 //@   ensures [bucket] v == nil && err == nil ==> callstotal("(*Bucket).CreateBucket") == old(callstotal("(*Bucket).CreateBucket")) + 1 && lastarg("(*Bucket).CreateBucket", 1) == old(bytesval(k)) && callstotal("(*Bucket).SetSequence") == old(callstotal("(*Bucket).SetSequence")) + 1 && lastarg("(*Bucket).SetSequence", 1) == seq && callstotal("(*Bucket).Put") == old(callstotal("(*Bucket).Put"))
 //@   ensures [fill] v != nil && len(keys) >= 1 && err == nil ==> lastarg("(*Bucket).Put", 0) != 0
-//@   loop 0 invariant callstotal("(*Tx).Commit") <= old(callstotal("(*Tx).Commit")) + 1 && callstotal("(*DB).Begin") <= old(callstotal("(*DB).Begin")) + 1 && callstotal("(*Bucket).Put") == old(callstotal("(*Bucket).Put")) && callstotal("(*Bucket).CreateBucket") == old(callstotal("(*Bucket).CreateBucket")) && callstotal("(*Bucket).SetSequence") == old(callstotal("(*Bucket).SetSequence")) && size == (old(size) + len(k) + len(v) > txMaxSize && txMaxSize != 0 ? len(k) + len(v) : old(size) + len(k) + len(v)) && (callstotal("(*Tx).Commit") == old(callstotal("(*Tx).Commit")) <==> !(old(size) + len(k) + len(v) > txMaxSize && txMaxSize != 0)) && callstotal("(*DB).Begin") == callstotal("(*Tx).Commit") - old(callstotal("(*Tx).Commit")) + old(callstotal("(*DB).Begin"))
